@@ -295,19 +295,32 @@ class Suite:
 
     def case_fails(self, ops, against):
         """does this single case diverge? against in model|spec|judge"""
-        impl = run_impl(self.drive, self.name, ops, min(self.timeout, 60), self.env)
+        impl = run_impl(self.drive, self.name, ops, min(self.timeout, 25), self.env)
         if against == "judge":
             j = run_oracle(self.judge, self.judge_lines(ops, impl))
             return any(x.startswith("bad") for x in j)
         ref = run_oracle(self.model if against == "model" else self.spec, ops)
         return any(not lines_agree(a, b) for a, b in zip(impl, ref))
 
-    def shrink(self, ops, against, budget=250):
-        """delta debugging over the op lines of one case (header '#' line kept)."""
+    def shrink(self, ops, against, budget=120, wall_s=45):
+        """delta debugging over the op lines of one case (header '#' line kept; lines matching the
+        suite's shrink_keep_re are never removed); bounded by a run budget and a wall-clock budget."""
         head, body = (ops[:1], ops[1:]) if ops and ops[0].startswith("#") else ([], ops)
+        keep_re = re.compile(self.cfg["shrink_keep_re"]) if self.cfg.get("shrink_keep_re") else None
+        fixed = [(i, l) for i, l in enumerate(body) if keep_re and keep_re.search(l)]
+        movable = [l for l in body if not (keep_re and keep_re.search(l))]
+        nfixed = len(fixed)
+
+        def assemble(mov):
+            # fixed lines first (they are declarations in every suite that uses shrink_keep_re)
+            return head + [l for _, l in fixed] + mov
+        if nfixed and not self.case_fails(assemble(movable), against):
+            return ops      # reordering changed the outcome: give up shrinking
+        body = movable
         n = 2
         calls = 0
-        while len(body) >= 2 and calls < budget:
+        t_end = time.time() + wall_s
+        while len(body) >= 2 and calls < budget and time.time() < t_end:
             chunk = max(1, len(body) // n)
             reduced = False
             for i in range(0, len(body), chunk):
@@ -316,18 +329,18 @@ class Suite:
                     continue
                 calls += 1
                 try:
-                    if self.case_fails(head + cand, against):
+                    if self.case_fails(assemble(cand), against):
                         body = cand; n = max(n - 1, 2); reduced = True
                         break
                 except Exception:
                     pass
-                if calls >= budget:
+                if calls >= budget or time.time() >= t_end:
                     break
             if not reduced:
                 if chunk == 1:
                     break
                 n = min(len(body), n * 2)
-        return head + body
+        return assemble(body)
 
     def corpus(self):
         d = os.path.join(VERIF, "corpus", self.name)
@@ -563,9 +576,29 @@ def main(argv):
             for d in divs:
                 opl = d["ops"][d["at"]] if d["at"] < len(d["ops"]) else ""
                 sig = (d["kind"], opl.split(" ", 1)[0])
+                if d["kind"] == "judge" and d.get("judge"):
+                    # one signature per violated clause, so that a known finding cannot hide another clause
+                    sig = sig + (re.sub(r"\d+", "N", d["judge"][d["at"]]),)
                 seen.setdefault(sig, []).append(d)
             for sig, ds in sorted(seen.items())[:12]:
                 ds.sort(key=lambda d: len(d["ops"]))
+                if scfg.get("confirm_reruns", 0) and sig[0] == "model":
+                    # suites with a documented source of nondeterminism in the real code (Go map
+                    # iteration order): a model divergence counts only if the same case diverges again
+                    # in every one of `confirm_reruns` fresh executions
+                    confirmed = []
+                    for cand in ds[:6]:
+                        try:
+                            if all(S.case_fails(cand["ops"], "model") for _ in range(scfg["confirm_reruns"])):
+                                confirmed.append(cand)
+                                break
+                        except Exception as e:
+                            notes.append("confirm failed: %s" % e)
+                    if not confirmed:
+                        notes.append("%s: %d divergent case(s) with signature %s did not reproduce (nondeterministic; ignored)" % (S.name, len(ds), sig))
+                        cov["suites"][S.name]["unreproduced_divergences"] = cov["suites"][S.name].get("unreproduced_divergences", 0) + len(ds)
+                        continue
+                    ds = confirmed
                 d = ds[0]
                 kind = d["kind"]
                 concrete, against = False, kind
@@ -585,7 +618,8 @@ def main(argv):
                 except Exception as e:
                     small = d["ops"]; notes.append("shrink failed: %s" % e)
                 impl = run_impl(drive, S.name, small, 60, S.env)
-                rec = {"ops": small, "impl": impl, "shrunk_from": len(d["ops"]), "count_same_signature": len(ds)}
+                rec = {"ops": small, "impl": impl, "shrunk_from": len(d["ops"]), "count_same_signature": len(ds),
+                       "original": {"ops": d["ops"], "impl": d["impl"], "ref": d["ref"], "judge": d["judge"], "at": d["at"]}}
                 at = None
                 if against == "judge":
                     rec["judge"] = run_oracle(S.judge, S.judge_lines(small, impl))
